@@ -509,7 +509,9 @@ def _judge_variant(case, col, v, yv, xv, system, res, fitted_periods, first_win,
         X1 = np.hstack([Xf] + [r for _, r in parts1])
         Y1 = np.hstack([Yf] + [l for l, _ in parts1])
         cond1 = float(np.linalg.cond(X1))
-        if math.isfinite(cond1) and cond1 <= COND_LIMIT:
+        if not math.isfinite(cond1) or cond1 > COND_LIMIT:
+            return None, A, c_eff, cov          # the second admissible reading cannot be judged: neither can the case
+        if True:
             beta1 = np.linalg.lstsq(X1.T, Y1.T, rcond=None)[0].T
             if _close(beta_got, beta1, RTOL_COEF, max(1.0, _maxabs(beta1))):
                 Xe, Ye, beta_ref, good = X1, Y1, beta1, True
